@@ -55,7 +55,14 @@ def gen_original(g, name, prefix, others, P=None, p_clock=0.0):
             acts.append({"k": "raw", "ctx": None, "text": text})
         else:
             acts.append({"k": "raw", "ctx": g.choice(["enter", "recur"]), "text": "done me"})
+        if i > 0 and others and side.random() < 0.3 and any(a["k"] == "clone" for a in frames[0]["acts"]):
+            # a raze inside the original aimed at its own first frame, which holds build-time clones: they are not razeable
+            # (only clones made by 'rear' are), however the original itself came to run (cloned at build time or reared)
+            acts.append({"k": "raw", "ctx": "enter", "text": "raze %s in frame %s%d" % (side.choice(["all", "first", "last"]), prefix, 0)})
         frames.append({"name": fn, "over": None, "acts": acts})
+    if others and any(a["k"] == "clone" for a in frames[0]["acts"]) and side.random() < 0.3:
+        # ... and the same from the holding frame itself while the build-time clones in it are running
+        frames[0]["acts"].insert(len(frames[0]["acts"]) - 1, {"k": "raw", "ctx": "recur", "text": "raze %s in frame %s0" % (side.choice(["all", "first", "last"]), prefix)})
     return {"name": name, "sched": "moot", "order": None, "period": None, "first": frames[0]["name"], "frames": frames}
 
 
@@ -266,7 +273,7 @@ class C12(Check):
                    "whether a razed clone that is 'done' but still entered gets its exit actions is outside this statement (probe razed-while-entered only)",
                    "program B (textual copies as ordinary auxiliaries) is the statement's 'what its original would produce alone'"]
     required_probes = ["insular", "named", "nested", "two-clones-of-one-original", "relative-entry-need", "reared", "razed-all", "razed-first", "razed-last",
-                       "raze-left-others", "raze-spared-non-razeable", "freed-name-taken-again", "dirty-plan", "razed-while-entered", "two-nested-clones-in-one-frame", "nested-named", "clock-driven-original"]
+                       "raze-left-others", "raze-spared-non-razeable", "freed-name-taken-again", "dirty-plan", "razed-while-entered", "two-nested-clones-in-one-frame", "nested-named", "clock-driven-original", "raze-inside-original"]
     quick_runs = 3000
     thorough_runs = 150000
     shrink_fields = []
@@ -301,6 +308,8 @@ class C12(Check):
         text = repr(plan)
         if "'text': 'timeout " in text or "'text': 'repeat " in text:
             out.probe("clock-driven-original")
+        if any(a.get("text", "").startswith("raze ") for o in plan["origs"] for f in o["frames"] for a in f["acts"]):
+            out.probe("raze-inside-original")
         for key, probe in (("'as': 'mine'", "insular"), ("'as': 'nc", "named"), ("'as': 'nr", "named"), ("'as': 'kd", "nested-named")):
             if key in text:
                 out.probe(probe)
